@@ -2,6 +2,7 @@ package eng
 
 import (
 	"fmt"
+	"go/constant"
 	"go/types"
 
 	"golang.org/x/tools/go/ssa"
@@ -118,13 +119,17 @@ func checkTOTPEntry(c *Check, w *World, tb *TB, pfx string, entry *ssa.Function,
 	}
 	per := periodTerm(fn, pp, "DefaultTOTPParam")
 	wantCtr := fmt.Sprintf("calldyn(gval(otp.TimeCounterFunc); param(%s#%d); %s)", fn, tp, per)
-	ct := h.Args[roles.Counter]
+	ct := tb.Norm(h.Args[roles.Counter])
 	// in validation the counter is centre + conv(i): compare the centre
 	centre := ct
 	if ct.Op == "bin" && ct.Sym == "+" {
 		for k := 0; k < 2; k++ {
 			if ct.Args[k].Op == "calldyn" {
 				centre = ct.Args[k]
+			}
+			// offset-form window (checked by R04.2/.3): (centre - s) + i
+			if a := ct.Args[k]; a.Op == "bin" && a.Sym == "-" && a.Args[0].Op == "calldyn" {
+				centre = a.Args[0]
 			}
 		}
 	}
@@ -152,7 +157,7 @@ func checkTOTPEntry(c *Check, w *World, tb *TB, pfx string, entry *ssa.Function,
 	}
 	c.Decide(uses == 1, pfx+".2", fn, "instant-isolation", "the instant is used only as the argument of the time-step function", fmt.Sprintf("the instant has %d uses (sub-second part, location or monotonic reading may leak into the code)", uses), w.Pos(entry.Pos()))
 	wantKey := fmt.Sprintf("extract(0; call(github.com/ja7ad/otp.DecodeSecret; param(%s#%d)))", fn, secretP)
-	c.Decide(h.Args[roles.Key].String() == wantKey, pfx+".2", fn, "key-is-decoded-secret", "the derivation key is DecodeSecret(secret)", "the key is "+clip(normT(h.Args[roles.Key]), 160), w.InstrPos(h.Call))
+	c.Decide(tb.EqNorm(h.Args[roles.Key], wantKey), pfx+".2", fn, "key-is-decoded-secret", "the derivation key is DecodeSecret(secret)", "the key is "+clip(normT(h.Args[roles.Key]), 160), w.InstrPos(h.Call))
 }
 
 func runC02(c *Check, w *World) {
@@ -176,9 +181,9 @@ func runC02(c *Check, w *World) {
 			pp := paramPtrIndex(entry, "Param")
 			fn := FuncName(entry)
 			d := h.Args[roles.Digits]
-			wd := "call((github.com/ja7ad/otp.Digits).Int; " + resolvedField(fn, pp, "DefaultTOTPParam", "Digits") + ")"
-			c.Decide(d.String() == wd, "R02.4", fn, "digits-resolution", "validation resolves digits like generation", "digits handed to the derivation: "+clip(normT(d), 200), w.InstrPos(h.Call))
-			c.Decide(h.Args[roles.Algo].String() == resolvedField(fn, pp, "DefaultTOTPParam", "Algorithm"), "R02.4", fn, "algorithm-resolution", "validation resolves the algorithm like generation", "algorithm handed to the derivation: "+clip(normT(h.Args[roles.Algo]), 200), w.InstrPos(h.Call))
+			wd := resolvedField(fn, pp, "DefaultTOTPParam", "Digits")
+			c.Decide(tb.Norm(d).String() == wd, "R02.4", fn, "digits-resolution", "validation resolves digits like generation", "digits handed to the derivation: "+clip(normT(d), 200), w.InstrPos(h.Call))
+			c.Decide(tb.EqNorm(h.Args[roles.Algo], resolvedField(fn, pp, "DefaultTOTPParam", "Algorithm")), "R02.4", fn, "algorithm-resolution", "validation resolves the algorithm like generation", "algorithm handed to the derivation: "+clip(normT(h.Args[roles.Algo]), 200), w.InstrPos(h.Call))
 		}
 	}
 	// R02.3 the period default is 30 everywhere
@@ -192,39 +197,8 @@ func runC02(c *Check, w *World) {
 		c.Unk("R02.4", "otp.DefaultTOTPParam", "default-values", "default parameter set is not a struct literal", "")
 	}
 	if uf := w.Func(OtpPath, "GenerateTOTPURL"); uf != nil {
-		// the URL builder's period: phi(30, param.Period) under Period == 0
-		hits := tb.Reach(uf, MatchCallee("fmt.Sprintf"), 2)
-		ok := false
-		got := ""
-		for _, h := range hits {
-			s := h.Args[len(h.Args)-1].String()
-			got = s
-			if len(h.Args) >= 1 {
-				p0 := fmt.Sprintf("param(%s#0)", FuncName(uf))
-				pf := "field(Period; " + p0 + ")"
-				// variadic slice content: look at the stored element
-				_ = pf
-			}
-		}
-		// simpler and exact: the store of the default into the local copy
-		EachInstr(uf, func(in ssa.Instruction) {
-			st, isSt := in.(*ssa.Store)
-			if !isSt {
-				return
-			}
-			if fa, isFA := st.Addr.(*ssa.FieldAddr); isFA && fieldName(fa.X.Type(), fa.Field) == "Period" {
-				if k, isK := constInt(st.Val); isK {
-					got = k.String()
-					// guarded by Period == 0
-					for _, at := range atomsOf(CondsAt(st.Block())) {
-						if kk, isKK := constInt(at.Y); isKK && kk.Sign() == 0 && at.Op.String() == "==" && tb.Of(at.X).ContainsStr("Period") {
-							ok = k.Int64() == 30
-						}
-					}
-				}
-			}
-		})
-		c.Decide(ok, "R02.3", FuncName(uf), "url-period-default", "provisioning URLs write period 30 for a zero period", "GenerateTOTPURL's default period is "+got+", not 30 under Period == 0", w.Pos(uf.Pos()))
+		ok, got := urlPeriodDefault(w, tb, uf)
+		c.Decide(ok, "R02.3", FuncName(uf), "url-period-default", "provisioning URLs write period 30 for a zero period", "GenerateTOTPURL's period parameter is "+clip(got, 200)+", not Period with 0 → 30", w.Pos(uf.Pos()))
 	}
 	checkDigitsInt(c, w, tb, "R02.4")
 	ruleHistoryIndependence(c, w, tb, ef, "R02.H", w.Funcs(OtpPath, "GenerateTOTP", "ValidateTOTP")...)
@@ -248,4 +222,135 @@ func init() {
 		thorough: []Config{CfgNative, Cfg386},
 		run:      runC02,
 	})
+}
+
+// decimalOf: the integer term whose decimal rendering t is (fmt.Sprintf("%d", x), strconv.FormatUint/FormatInt(x, 10), strconv.Itoa(x)).
+func decimalOf(tb *TB, t *Term) (*Term, bool) {
+	if t.Op != "call" {
+		return nil, false
+	}
+	strip := func(x *Term) *Term {
+		for x.Op == "conv" && len(x.Args) == 1 {
+			x = x.Args[0]
+		}
+		return x
+	}
+	switch t.Sym {
+	case "fmt.Sprintf":
+		if len(t.Args) == 2 && t.Args[0].IsConst() && t.Args[0].Sym == `"%d"` {
+			if el := varargsElems(tb, t.Args[1]); len(el) == 1 {
+				return strip(el[0]), true
+			}
+		}
+	case "strconv.FormatUint", "strconv.FormatInt":
+		if len(t.Args) == 2 && t.Args[1].IsConst() && t.Args[1].Sym == "10" {
+			return strip(t.Args[0]), true
+		}
+	case "strconv.Itoa":
+		if len(t.Args) == 1 {
+			return strip(t.Args[0]), true
+		}
+	}
+	return nil, false
+}
+
+// urlPeriodDefault: the "period" query value of GenerateTOTPURL is the decimal rendering of
+// URLParam.Period with exactly the value 0 replaced by 30. Two equivalent shapes are recognised:
+// the gated form (x == 0 ? 30 : x, after normalising helper calls) and the in-place form (a store of
+// 30 into the local copy's Period field guarded by Period == 0).
+func urlPeriodDefault(w *World, tb *TB, uf *ssa.Function) (bool, string) {
+	var pt *Term
+	EachInstr(uf, func(in ssa.Instruction) {
+		if mu, ok := in.(*ssa.MapUpdate); ok {
+			if k, ok := mu.Key.(*ssa.Const); ok && k.Value != nil && k.Value.Kind() == constant.String && constant.StringVal(k.Value) == "period" {
+				pt = tb.Of(mu.Value)
+			}
+		}
+	})
+	if pt == nil {
+		return false, "absent"
+	}
+	x, ok := decimalOf(tb, pt)
+	if !ok {
+		return false, pt.String()
+	}
+	isField := func(t *Term) bool {
+		n := 0
+		for _, a := range t.Alts() {
+			switch {
+			case a.Op == "cycle":
+			case a.String() == "field(Period; param("+FuncName(uf)+"#0))":
+				n++
+			default:
+				return false
+			}
+		}
+		return n > 0
+	}
+	strip := func(x *Term) *Term {
+		for x.Op == "conv" && len(x.Args) == 1 {
+			x = x.Args[0]
+		}
+		return x
+	}
+	nx := strip(tb.Norm(x))
+	if nx.Op == "ite" && len(nx.Args) == 3 {
+		cond, th, el := nx.Args[0], strip(nx.Args[1]), strip(nx.Args[2])
+		if cond.Op == "bin" && (cond.Sym == "==" || cond.Sym == "!=") && len(cond.Args) == 2 {
+			var v *Term
+			switch {
+			case cond.Args[0].IsConst() && cond.Args[0].Sym == "0":
+				v = strip(cond.Args[1])
+			case cond.Args[1].IsConst() && cond.Args[1].Sym == "0":
+				v = strip(cond.Args[0])
+			}
+			if cond.Sym == "!=" {
+				th, el = el, th
+			}
+			if v != nil && isField(v) && th.IsConst() && th.Sym == "30" && isField(el) {
+				return true, ""
+			}
+		}
+		return false, nx.String()
+	}
+	// in-place form
+	has30, hasF := false, false
+	for _, a := range x.Alts() {
+		switch {
+		case a.IsConst() && a.Sym == "30":
+			has30 = true
+		case a.String() == "field(Period; param("+FuncName(uf)+"#0))":
+			hasF = true
+		case a.Op == "cycle":
+		default:
+			return false, x.String()
+		}
+	}
+	if !has30 || !hasF {
+		return false, x.String()
+	}
+	okStore, n := true, 0
+	EachInstr(uf, func(in ssa.Instruction) {
+		st, isSt := in.(*ssa.Store)
+		if !isSt {
+			return
+		}
+		if fa, isFA := st.Addr.(*ssa.FieldAddr); isFA && fieldName(fa.X.Type(), fa.Field) == "Period" {
+			n++
+			k, isK := constInt(st.Val)
+			guarded := false
+			for _, at := range atomsOf(CondsAt(st.Block())) {
+				if kk, isKK := constInt(at.Y); isKK && kk.Sign() == 0 && at.Op.String() == "==" && isField(strip(tb.Of(at.X))) {
+					guarded = true
+				}
+			}
+			if !isK || k.Int64() != 30 || !guarded {
+				okStore = false
+			}
+		}
+	})
+	if n == 0 || !okStore {
+		return false, x.String() + " (default store not guarded by Period == 0)"
+	}
+	return true, ""
 }
